@@ -99,11 +99,15 @@ def build():
     USER_FUNCS_NR = Dom([{}, {'f': f1}, {'g': f2, 'h': f1}], [{'f': 5}, {'f': 'sin'}, {1: f1}, [f1], None, 'f',
                                                               {'f': [f1, f1]}],
                         name='{name: function} (no random functions)')
-    # a default constant is removed by giving it the value None; whether such entries are kept in the exposed
-    # configuration is not documented: they are ignored when comparing
-    USER_CONSTS = Dom([{}, {'c': 3}, {'c': 3e8, 'hbar': 1.5}, {'i': None, 'c': 2}], [{'c': 'a'}, {1: 2}, [1], None, 'c', {'c': [1, 2]}],
-                      canon=lambda v: {k: x for k, x in v.items() if x is not None} if isinstance(v, dict) else v,
-                      name='{name: number or None}')
+    # a constant given the value None removes the default constant of that name (documented: docs/grading_math/
+    # formula_grader.md); such entries are not part of the exposed configuration, whatever name they carry:
+    # (a) default constants i, j, e, pi   (b) names that are not default constants (fresh names, names that are also
+    # declared variables / numbered-variable heads, 'infty' without allow_inf) -- alone and mixed with real constants
+    USER_CONSTS = Dom([{}, {'c': 3}, {'c': 3e8, 'hbar': 1.5}, {'i': None, 'c': 2}, {'i': None, 'j': None}, {'pi': None, 'e': None, 'g': 9.8},
+                       {'c': None}, {'c': None, 'g': 9.8}, {'x': None, 'g': 9.8}, {'pi': None, 'c': None, 'g': 1.5}, {'infty': None},
+                       {'n': None, 'x': None}],
+                      [{'c': 'a'}, {1: 2}, [1], None, 'c', {'c': [1, 2]}, {'c': None, 'g': 'a'}],
+                      norm=lambda v: {k: x for k, x in v.items() if x is not None}, name='{name: number or None}')
 
     def nr_norm(v):
         if isinstance(v, list):
